@@ -27,11 +27,19 @@ fn gen(case_seed: u64, _case: u64, tier: Tier) -> Plan {
 	let keys = key_universe(&mut rng, nkeys as usize, false);
 	let nkeys = keys.len() as u16;
 	let mut tags = TagGen(0);
+	// a quarter of the cases: one long commit-log segment (big memtable, no rotation, a few
+	// kilobytes per commit) so that the log crosses several 32 KiB block boundaries AFTER the
+	// injected failure - the writer's framing state must have survived it
+	let long_segment = rng.chance(1, 4);
+	if long_segment {
+		opts.memtable = 400_000;
+	}
 	let budget = txn_budget(opts.memtable);
 	let n = match tier {
 		Tier::Quick => rng.range(5, 25),
 		Tier::Thorough => rng.range(5, 40),
 	};
+	let n = if long_segment { n + 30 } else { n };
 	let mut steps = Vec::new();
 	let conflicts = rng.chance(1, 2);
 	for _ in 0..n {
@@ -51,6 +59,17 @@ fn gen(case_seed: u64, _case: u64, tier: Tier) -> Plan {
 			}
 			steps.push(Step::Commit { a: 2, sync: false });
 			steps.push(Step::Probe);
+			continue;
+		}
+		if long_segment {
+			steps.push(Step::Begin { a: 0, mode: ModeS::ReadWrite });
+			for _ in 0..rng.range(1, 2) {
+				steps.push(Step::Set { a: 0, k: rng.below(nkeys as u64) as u16, v: tags.next(rng.range(400, 3000) as u32), ts: None });
+			}
+			steps.push(Step::Commit { a: 0, sync: rng.chance(1, 5) });
+			if rng.chance(1, 6) {
+				steps.push(Step::Probe);
+			}
 			continue;
 		}
 		write_txn(&mut rng, 0, nkeys, &mut tags, 3, 30, budget, &mut steps);
